@@ -180,7 +180,20 @@ class Machine:
         if isinstance(e, ast.Dict):
             return {self.ev(k): self.ev(v) for k, v in zip(e.keys, e.values) if k is not None}
         if isinstance(e, ast.JoinedStr):
-            return Opaque("fstring")
+            parts, concrete = [], True
+            for v in e.values:
+                if isinstance(v, ast.Constant):
+                    parts.append(str(v.value))
+                else:
+                    x = self.ev(v.value)
+                    if isinstance(x, (str, int)) and not isinstance(x, bool) and v.format_spec is None and v.conversion == -1:
+                        parts.append(str(x))
+                    elif x is None and v.format_spec is None:
+                        parts.append("None")
+                    else:
+                        parts.append("{" + render(x)[:40] + "}")
+                        concrete = False
+            return "".join(parts) if concrete else Opaque("f'" + "".join(parts) + "'")
         if isinstance(e, ast.UnaryOp):
             v = self.ev(e.operand)
             if isinstance(e.op, ast.Not):
@@ -228,8 +241,14 @@ class Machine:
             return self.binop(e.op, a, b, e)
         if isinstance(e, ast.Subscript):
             base = self.ev(e.value)
+            if isinstance(e.slice, ast.Slice) and isinstance(base, (list, tuple, str)):
+                lo, hi, stp = (self.ev(x) if x is not None else None for x in (e.slice.lower, e.slice.upper, e.slice.step))
+                if all(x is None or (isinstance(x, int) and not isinstance(x, bool)) for x in (lo, hi, stp)):
+                    return base[lo:hi:stp]
             idx = self.ev(e.slice) if not isinstance(e.slice, ast.Slice) else None
             if isinstance(base, dict) and idx in base:
+                return base[idx]
+            if isinstance(base, str) and isinstance(idx, int) and -len(base) <= idx < len(base):
                 return base[idx]
             if isinstance(base, (tuple, list)) and isinstance(idx, int) and -len(base) <= idx < len(base):
                 return base[idx]
@@ -515,6 +534,12 @@ class Machine:
             text = f"{args[0].text}.{args[1]}"
             v = self.attrs(text)
             return Opaque(text, ("attr", args[0], args[1])) if v is NotImplemented else v
+        if isinstance(recv, str) and isinstance(e.func, ast.Attribute) and short in ("split", "rsplit", "join", "upper", "lower", "strip", "startswith",
+                                                                                    "endswith", "replace", "format", "isdigit", "partition", "rpartition") \
+                and all(isinstance(a_, (str, int, list, tuple)) and not isinstance(a_, Opaque) for a_ in args) \
+                and all(isinstance(x, (str, int)) for a_ in args if isinstance(a_, (list, tuple)) for x in a_) and not kwargs:
+            r_ = getattr(recv, short)(*args)
+            return list(r_) if isinstance(r_, tuple) and short in ("partition", "rpartition") else r_
         if short in ("values", "keys", "items") and isinstance(e.func, ast.Attribute) and not args:
             v = self.ev(e.func.value)
             if isinstance(v, dict):
@@ -580,6 +605,23 @@ class Machine:
             base = self.ev(t.value)
             if isinstance(base, Opaque):
                 self.attr_stores.append((base, t.attr, v))        # obj.attr = v on an object of the analysed program
+
+    def delete(self, t):
+        if isinstance(t, ast.Name):
+            self.env.pop(t.id, None)
+        elif isinstance(t, ast.Subscript):
+            base = self.ev(t.value)
+            k = self.ev(t.slice)
+            if isinstance(base, dict):
+                base.pop(k, None)
+            elif isinstance(base, list) and isinstance(k, int):
+                del base[k]
+            elif isinstance(base, Opaque):
+                self.stores.append((base.text, k, "<deleted>"))
+            else:
+                raise Undecidable(f"del {ast.unparse(t)}")
+        else:
+            raise Undecidable(f"del {ast.unparse(t)}")
 
     def run(self, stmts):
         for st in stmts:
@@ -654,6 +696,9 @@ class Machine:
             raise Raised(what)
         elif isinstance(st, ast.Pass):
             pass
+        elif isinstance(st, ast.Delete):
+            for t in st.targets:
+                self.delete(t)
         elif isinstance(st, ast.Assert):
             pass
         elif isinstance(st, (ast.With,)):
